@@ -91,7 +91,28 @@ def builder_job(which, n, prior=False, eq=True, zero_rows=False, pattern=None, c
             C = Ci
         A = funcs.np_array(C, dtype=int if int_counts else float)
         A0 = A.copy()
-        arg = A if container is None else ssp.CLASSES[container](A)
+        dup_entries = None
+        if container == 'coo-dup':
+            # a COO matrix with repeated coordinates, as assigns_to_counts builds them: every off-diagonal count is split into
+            # two stored entries (the matrix value is their sum)
+            ent = []
+            for i in range(n):
+                for j in range(n):
+                    c = C[i][j]
+                    if not isinstance(c, SVal) and c == 0:
+                        continue
+                    if i != j and isinstance(c, SVal):
+                        part = core.fresh_int('part', 0, None) if int_counts else core.fresh_real('part')
+                        ctx.add(core.to_z3_bool(part >= 0))
+                        ctx.add(core.to_z3_bool(part <= c))
+                        ent += [(part, i, j), (c - part, i, j)]
+                    else:
+                        ent.append((c, i, j))
+            dup_entries = ent
+            arg = ssp.CLASSES['coo']((funcs.np_array([e[0] for e in ent], dtype=int if int_counts else float),
+                                      (np.array([e[1] for e in ent]), np.array([e[2] for e in ent]))), shape=(n, n))
+        else:
+            arg = A if container is None else ssp.CLASSES[container](A)
         stored0 = list(arg._data.cells()) if container is not None else None
         exc = None
         try:
@@ -153,7 +174,13 @@ def builder_job(which, n, prior=False, eq=True, zero_rows=False, pattern=None, c
             out = {'inputs': {'builder': which, 'counts': Cc, 'prior_counts': pc, 'calculate_eq_probs': eq,
                               'container': container or 'ndarray', 'element_type': 'int64' if int_counts else 'float64'}}
             Ac = np.array(Cc).astype(int) if int_counts else np.array(Cc)
-            if container is not None:
+            if container == 'coo-dup':
+                import scipy.sparse
+                dv = [(int(ev(model, e[0])) if int_counts else float(ev(model, e[0]))) if isinstance(e[0], SVal) else e[0] for e in dup_entries]
+                out['inputs']['stored_entries'] = [[v, e[1], e[2]] for v, e in zip(dv, dup_entries)]
+                Ac = scipy.sparse.coo_matrix((np.array(dv, dtype=int if int_counts else float),
+                                              (np.array([e[1] for e in dup_entries]), np.array([e[2] for e in dup_entries]))), shape=(n, n))
+            elif container is not None:
                 import scipy.sparse
                 Ac = getattr(scipy.sparse, container + '_matrix')(Ac)
             dn2 = lambda x: np.asarray(x.toarray() if hasattr(x, 'toarray') else x)
@@ -304,6 +331,10 @@ def jobs(tier):
                 add('%s,n=2,%s,%s,no-eq' % (which, fmt, 'int' if ints else 'float'), which=which, n=2, eq=False, container=fmt, int_counts=ints)
             add('%s,n=3,%s,tridiagonal,int,no-eq' % (which, fmt), which=which, n=3, eq=False, container=fmt, int_counts=True, pattern=tri)
         add('transpose,n=2,%s,float,eq' % fmt, which='transpose', n=2, eq=True, container=fmt)
+        if fmt == 'coo':
+            for which in ('normalize', 'transpose'):
+                add('%s,n=2,coo with repeated coordinates,int,no-eq' % which, which=which, n=2, eq=False, container='coo-dup', int_counts=True)
+                add('%s,n=2,coo with repeated coordinates,int,prior,no-eq' % which, which=which, n=2, eq=False, prior=True, container='coo-dup', int_counts=True)
         add('normalize,n=2,%s,float,prior,no-eq' % fmt, which='normalize', n=2, eq=False, prior=True, container=fmt)
         if not q or fmt in ('csr', 'lil'):
             add('normalize,n=2,%s,float,eq' % fmt, which='normalize', n=2, eq=True, container=fmt)
